@@ -18,6 +18,7 @@ use crate::client::conn::Protocol;
 use crate::client::conn::Transport;
 
 use super::key::Token;
+use super::AttemptId;
 use super::Config;
 use super::PoolRef;
 use super::PoolableConnection;
@@ -199,11 +200,11 @@ where
     inner: InnerCheckoutConnecting<T, P, B>,
     connection: Option<P::Connection>,
 
-    /// Whether this checkout owns the pool's "connection in progress" marker for its token.
+    /// The pool's "connection in progress" marker for its token which this checkout placed.
     ///
     /// Only the checkout which placed the marker (and is therefore the one other checkouts are
     /// waiting on) may remove it again when it goes away without producing a connection.
-    marker: bool,
+    marker: Option<AttemptId>,
     meta: ConnectorMeta,
     #[cfg(debug_assertions)]
     id: CheckoutId,
@@ -286,7 +287,7 @@ where
             waiter: Waiting::NoPool,
             inner: InnerCheckoutConnecting::Connecting(connector),
             connection: None,
-            marker: false,
+            marker: None,
             meta: ConnectorMeta::new(),
             #[cfg(debug_assertions)]
             id,
@@ -299,7 +300,7 @@ where
         waiter: Receiver<Pooled<P::Connection, B>>,
         connect: Option<Connector<T, P, B>>,
         connection: Option<P::Connection>,
-        marker: bool,
+        marker: Option<AttemptId>,
         config: &Config,
     ) -> Self {
         #[cfg(debug_assertions)]
@@ -571,11 +572,11 @@ where
                     tracing::error!(error=%err, "error during delayed drop");
                 }
             });
-        } else if self.marker {
+        } else if let Some(attempt) = self.marker {
             // Connection is only cancled when no delayed drop occurs, and only by the checkout
             // which other checkouts are waiting on.
             if let Some(mut pool) = self.pool.lock() {
-                pool.cancel_connection(self.token);
+                pool.cancel_connection(self.token, attempt);
             }
         }
     }
